@@ -40,6 +40,12 @@ type engine struct{}
 func (engine) Name() string { return "storesim" }
 
 func (engine) Run(prop string, seed uint64, tier string, replay *core.Schedule) (*core.Schedule, *core.Result) {
+	if prop == "C09" && ((replay != nil && replay.Engine == "chainsim") || (replay == nil && seed%3 == 2)) {
+		// every third seed: historical queries against a whole node (contexts, keepers, caches)
+		if e, ok := core.Engines["chainsim"]; ok {
+			return e.Run(prop, seed, tier, replay)
+		}
+	}
 	if prop == "C07" && ((replay != nil && replay.Engine == "chainsim") || (replay == nil && seed%3 == 2)) {
 		// every third seed: the same question asked of a whole node (application-level crash images)
 		if e, ok := core.Engines["chainsim"]; ok {
